@@ -89,6 +89,20 @@ SHIMS = {
 }
 # CLI sources reached through shims (src/run_kalign.c is #included by harness/shim_run_kalign.c)
 
+# which shim files each op file needs (for the degraded build)
+OPS_DEPS = {
+    "ops_misc.c": ["shim_msa_cmp.c", "shim_msa_sort.c"],
+    "ops_io.c": ["shim_msa_io.c"],
+    "ops_dp.c": ["shim_controller.c", "shim_aln_run.c"],
+    "ops_param.c": ["shim_run_kalign.c"],
+    "ops_bpm.c": ["shim_kmeans.c"],
+    "ops_weave.c": [],
+    "ops_ref.c": [],
+    "ops_sys.c": [],
+}
+DEGRADED = {}
+CURRENT_CTX = None
+
 VARIANTS = {
     # name: (compiler, cflags, ldflags)
     "asan": ("gcc", ["-O1", "-g", "-fsanitize=address,undefined", "-fno-sanitize-recover=all", "-fno-omit-frame-pointer",
@@ -114,6 +128,9 @@ def build_harness(variant="asan", hooks=True, extra_defs=()):
     os.makedirs(out, exist_ok=True)
     exe = os.path.join(out, "kvh")
     if os.path.exists(exe):
+        if CURRENT_CTX is not None and exe in DEGRADED and exe not in getattr(CURRENT_CTX, "_deg_noted", set()):
+            CURRENT_CTX._deg_noted = getattr(CURRENT_CTX, "_deg_noted", set()) | {exe}
+            note_degraded(CURRENT_CTX, exe)
         return exe
     common = list(cflags) + ["-std=gnu11", "-w",
                              '-DKALIGN_PACKAGE_VERSION="%s"' % repo_version(), '-DKALIGN_PACKAGE_NAME="kalign"',
@@ -146,10 +163,47 @@ def build_harness(variant="asan", hooks=True, extra_defs=()):
         res = list(ex.map(cc, jobs))
     bad = [(s, e) for s, rc, e in res if rc != 0]
     if bad:
-        raise BuildError("\n".join("%s:\n%s" % (s, e[-3000:]) for s, e in bad))
+        # a shim or op file that reaches into `static` functions may stop compiling after a refactoring of the library.
+        # Degrade instead of giving up: compile the library file behind a broken shim directly, replace the op tables that
+        # depend on it by empty tables (their unit ops then answer `bad-op`, i.e. the correspondence is reported broken) and keep
+        # the public-API ops, so that the oracle search can still run.
+        badh = {os.path.basename(s_) for s_, _ in bad if s_.startswith(HARNESS)}
+        if len(badh) != len(bad):
+            raise BuildError("\n".join("%s:\n%s" % (s_, e[-3000:]) for s_, e in bad))
+        rev = {v: k for k, v in SHIMS.items()}
+        extra_shims = {"shim_run_kalign.c": None}
+        stub_tables, drop = set(), set(badh)
+        for opsf, deps in OPS_DEPS.items():
+            if opsf in badh or any(d in badh for d in deps):
+                stub_tables.add(opsf)
+                drop.add(opsf)
+        jobs2 = [j for j in jobs if os.path.basename(j[0]) not in drop]
+        for sh_ in badh:
+            if sh_ in rev:
+                src = os.path.join(REPO, "lib", "src", rev[sh_])
+                jobs2.append((src, os.path.join(out, "lib_" + rev[sh_][:-2] + ".o"), []))
+        stub = os.path.join(out, "stub_tables.c")
+        with open(stub, "w") as f:
+            f.write('#include "kvh.h"\n')
+            for opsf in sorted(stub_tables):
+                f.write("struct kv_op kv_%s[] = { {NULL, NULL} };\n" % opsf[:-2])
+            if "ops_sys.c" in stub_tables:
+                raise BuildError("\n".join("%s:\n%s" % (s_, e[-3000:]) for s_, e in bad))
+        jobs2.append((stub, os.path.join(out, "h_stub_tables.o"), []))
+        with ThreadPoolExecutor(NCPU) as ex:
+            res2 = list(ex.map(cc, [j for j in jobs2 if not os.path.exists(j[1]) or j[0] == stub or j[1].startswith(os.path.join(out, "lib_"))]))
+        bad2 = [(s_, e) for s_, rc, e in res2 if rc != 0]
+        if bad2:
+            raise BuildError("\n".join("%s:\n%s" % (s_, e[-3000:]) for s_, e in bad + bad2))
+        jobs = jobs2
+        DEGRADED[exe] = dict(broken=sorted(badh), stubbed=sorted(stub_tables), log="\n".join("%s:\n%s" % (s_, e[-1500:]) for s_, e in bad))
     p = sh([comp] + [j[1] for j in jobs] + ["-o", exe] + ldflags, timeout=300)
     if p.returncode != 0:
+        DEGRADED.pop(exe, None)
         raise BuildError("link failed:\n" + p.stderr.decode(errors="replace")[-3000:])
+    if CURRENT_CTX is not None and exe in DEGRADED:
+        CURRENT_CTX._deg_noted = getattr(CURRENT_CTX, "_deg_noted", set()) | {exe}
+        note_degraded(CURRENT_CTX, exe)
     return exe
 
 
@@ -487,6 +541,15 @@ def lean_obligations(ctx, prop, theorems, allow_axioms=(), allow_bv_decide_in=()
     ctx.build_log = log
     ctx.build_errors = "" if all_ok else txt[-2000:]
     return all_ok
+
+
+def note_degraded(ctx, exe):
+    """if the harness had to be built without some shims, the unit correspondence through them is broken: record it"""
+    d = DEGRADED.get(exe)
+    if d:
+        ctx.violation("harness shims no longer compile against the current sources (%s): unit correspondence of %s is broken" % (
+            ", ".join(d["broken"]), ", ".join(d["stubbed"])), dict(kind="harness-build", broken=d["broken"], log=d["log"][-4000:]), no_input=True)
+    return d
 
 
 def gen_ops(script, seed, *args, prefixes=None, outfile=None):
